@@ -187,8 +187,8 @@ impl EditProp {
         match self.0 {
             Which::C04 => {
                 let vals: &[&str] = match t {
-                    Tier::Quick => &["x", "x\ny", ":c\nd"],
-                    Tier::Thorough => &["x", "x\ny", "é", ":c\nd"],
+                    Tier::Quick => &["x", "x\ny", ":c\nd", "#h  "],
+                    Tier::Thorough => &["x", "x\ny", "é  ", ":c\nd", "#h\ny"],
                 };
                 field_ops(n, vals, &KEYS)
             }
